@@ -71,6 +71,8 @@ def norm_panic(msg):
 def livelock_site(out):
     """for a watchdog crash: the innermost protocol frame (not conn.go's write path) of a running goroutine"""
     best = None
+    if "processPostHandshakeMessages" in out:
+        return "internal/handshake/post_handshake.go", "dtlshandshake.(*postHandshake).processPostHandshakeMessages"
     for blk in re.split(r"\n\n(?=goroutine )", out):
         head = blk.split("\n", 1)[0]
         if "synctest bubble" not in head or "(durable)" in head:
@@ -142,6 +144,8 @@ def replay_crash(chk, j, first_out):
     if "c08 watchdog: livelock" in src:
         kind = "livelock"
         site, func = livelock_site(src)
+        if func == "?":
+            site, func = livelock_site(first_out + "\n" + o)
         msg = "endpoint goroutine spins: more than 40000 datagrams written, never blocks again"
     elif "c08 watchdog: memory" in src:
         kind = "memory"
@@ -331,19 +335,23 @@ def run(chk):
                                 "endpoint to keep serving"})
 
     # ---- M4b keeps serving after drop-only batches
+    late = []
     for c in cases:
         if not c["drop_only"] or c["gen"].startswith("flood") or c["inj"] == 0:
             continue
         if any(obs_violation(o) for o in c["obs"] or []):
             continue  # already reported through the datagram that did it
         if not (c["done"] and c["echo_cs"] and c["echo_sc"]):
-            found = True
-            chk.finding("conn.go receive path", {"monitor": "no service after dropped datagrams", "gen": c["gen"]},
-                        "after a batch of datagrams that all had to be dropped (none had an immediate effect) the "
-                        "handshake did not complete / a fresh payload was not delivered [variant %s stage %d]" % (
-                            c["variant"], c["stage"]),
-                        {"how": "VERIF_C08_ONLY=%d VERIF_C08_TRACE=1" % c["id"], "case": c})
-            break
+            late.append(c)
+    if late:
+        c = sorted(late, key=lambda c: (c["gen"] != "corpus", c["inj"], c["id"]))[0]
+        found = True
+        chk.finding("conn.go receive path", {"monitor": "no service after dropped datagrams"},
+                    "after datagrams that all had to be dropped (none had an immediate effect) the handshake did not "
+                    "complete / a fresh payload was not delivered [%d such cases; e.g. variant %s stage %d generator %s]" % (
+                        len(late), c["variant"], c["stage"], c["gen"]),
+                    {"how": "VERIF_C08_ONLY=%d VERIF_C08_TRACE=1" % c["id"], "case": c,
+                     "all": [(x["id"], x["variant"], x["stage"], x["gen"]) for x in late[:20]]})
 
     # ---- M3 bounds
     for c in cases:
